@@ -812,7 +812,7 @@ def correspond(run):
 
 def _correspond(run):
     quick = run.tier == "quick"
-    per = {"hdr": 60, "center": 60, "vector": 50, "adds": 50, "gsd": 60, "log": 60} if quick else \
+    per = {"hdr": 150, "center": 150, "vector": 120, "adds": 120, "gsd": 150, "log": 150} if quick else \
           {"hdr": 1200, "center": 1500, "vector": 1200, "adds": 1200, "gsd": 1500, "log": 1500}
     cases = list(common.load_corpus(PROP))
     for s in ("hdr", "center", "vector", "adds", "gsd", "log"):
